@@ -120,4 +120,45 @@ _bounded('C12', 'fault_enumeration',
          'with every kind of damage of the statement in random subsets of messages: skipped with continue_on_error, others delivered '
          'unchanged; strict mode delivers the earlier ones then raises PyBufrKitError; CLI prints no traceback.', '')
 
+PROPS['C18'] = dict(
+    level='proof', bounded='C18.py', bounded_timeout={'quick': 900, 'thorough': 3600},
+    witness_map={'pybufrkit.script.process_embedded_query_expr': 'C18.lex'},
+    trusted_base=[L['L1'], L['L5'], L['L6'], L['term'],
+                  "''.join(list) is the concatenation of the appended pieces (ghost `joined`); 'PBK_{}'.format(n) == 'PBK_' + str(n)",
+                  'composition of the per-iteration step contract into the whole-string statement is the usual induction over the '
+                  'input (argued in DESIGN C18, enumerated by the bounded layer), not mechanised'],
+    assumptions=['compile / exec / eval of the processed script, ScriptRunner.run, query dispatch and the nesting levels are checked '
+                 'by the bounded layer only (L14)', 'escape-free literals and terminated ${...} as in the quantifier'],
+    claim='The character state machine of process_embedded_query_expr is proved, for one arbitrary iteration from any reachable '
+          'state, to follow exactly the rules of the statement (one step clause per rule: code / single-quoted / double-quoted / comment / '
+          'embedded; what is kept, what is consumed, when a name is created or reused, PBK_<count>), with the naming invariant '
+          'idx_var == number of distinct expressions. Whole-string behaviour, variable binding, metadata_only and nesting levels are bounded.',
+    note='Trusted: SMT strings for Python str, list / dict models, partial correctness; induction over the string not mechanised.',
+    explanation='step contract of the lexer proved; running scripts bounded')
+
+_bounded('C11', 'exploration',
+         'Bounded: streams of 0..4 valid messages (payloads containing BUFR / 7777 / embedded messages, swept total lengths) x separators x '
+         'full / info-only x metadata filters of both polarities yield exactly the messages; split + concatenation reproduces them.', '',
+         script='C11.py')
+_bounded('C13', 'exploration',
+         'Bounded sanity run: random interleavings of successful and failing decode / encode / query / render operations over a pool using more '
+         'table versions than the (forced small) caches hold, related message pairs back to back; every decode equals the decode of the same '
+         'bytes first in a fresh process.', 'History-independence over ALL histories needs the frame argument (DESIGN C13); this run samples histories.',
+         script='C13.py')
+_bounded('C14', 'exploration',
+         'Bounded, exhaustive over the bundled tables (thorough: every version): every Table D entry flattens to the direct expansion of the '
+         'table file with Table B attributes intact; random well-formed descriptor lists build to the FM-94 ownership tree and flatten back; '
+         'unknown descriptors fail with UnknownDescriptor; version selection and fall-back.', '', script='C14.py')
+_bounded('C15', 'exploration',
+         'Bounded, exhaustive: every string up to length 5 (6) over the 12-letter alphabet against a reference recogniser written from the '
+         'documented EBNF; print / parse round trip; derived long expressions and single-character mutations.', '', script='C15.py')
+_bounded('C16', 'exploration',
+         'Bounded: query == evaluation of the path over the nested JSON rendering for every existing child / attribute path x slices x subset '
+         'selectors; bare IDs against the flat data; compressed == uncompressed; compiled == direct; one querent across messages.',
+         'The recursive tree filter with Python slice semantics is outside the verifier (DESIGN C16).', script='C16.py')
+_bounded('C20', 'exploration',
+         'Bounded: streams of 1-2 NCEP table-definition messages (adding or redefining class-48 elements and sequences, incl. replication-only '
+         'sequences) followed by data messages: decoded as the reference decoder does with the merged tables; each stream in a fresh process.',
+         '', script='C20.py')
+
 NOT_APPLICABLE = {}
